@@ -15,3 +15,16 @@ Definition st_vkind (v : value) : Z :=
   end%Z.
 Definition v_as_list (v : value) : option (list value) := match v with VList _ l => Some l | _ => None end.
 
+
+(* ---- the whole value vocabulary, in the fixed order of the <name>_V definitions ----
+   gotrans emits every function over data.Value a second time (<name>_V) with ALL value operations as parameters, used
+   or not, so that a rewrite that uses another operation (isInt(x) for _, ok := x.(data.Int)) does not change the
+   interface the lemma is stated about.  st_V f is f applied to the model's own value type; String() of a value
+   (val_string) is the next argument. *)
+Definition st_as_bool_v (v : value) : option bool := match v with VBool x => Some x | _ => None end.
+Definition st_as_int_v (v : value) : option Z := match v with VInt i => Some i | _ => None end.
+Definition st_as_string_v (v : value) : option bstr := match v with VStr x => Some x | _ => None end.
+Definition st_as_list_v (v : value) : option (list value) := match v with VList _ l => Some l | _ => None end.
+Definition st_as_map_v (v : value) : option (list (bstr * value)) := match v with VMap _ m => Some m | _ => None end.
+Notation st_V f :=
+  (f value st_vkind VUndef VNull VBool VInt VStr st_as_bool_v st_as_int_v st_as_string_v st_as_list_v st_as_map_v).
